@@ -10,6 +10,16 @@ HERE = os.path.dirname(os.path.dirname(os.path.abspath(__file__)))
 VENV_PY = "/venv/bin/python"
 
 PROPS: dict[str, dict[str, Any]] = {
+    "C04": {
+        "level": "proof",
+        "sidecars": ["contracts/c04.py"],
+        "native_n": {"quick": 300, "thorough": 5000},
+        "frame_scan": True,
+        "bounded": [{"script": "bounded/model_harness.py", "args": []}],
+        "assumptions": ["the diagram depends on the model only through the event sets and the gate trees returned by logic_gate_tree (that is C03, not decided)",
+                        "calculate_logic_gates is treated as a function of the set of successor multisets (pm4py's miner is external; determinism observed, not proved)",
+                        "janus (test_event_generator) is absent: /verif/stubs reproduces GraphSolution.from_event_list from its documented behaviour (bounded part only)"],
+    },
     "C08": {
         "level": "proof",
         "sidecars": ["contracts/c08.py"],
@@ -166,7 +176,7 @@ def fill_coverage(run: Any, d: dict[str, Any], ded: list[dict[str, Any]], bounde
         "deductive": ded, "bounded": bounded,
         "functions_under_contract": [f for x in ded for f in x["functions"]],
         "solver_seconds": sum(x["solver_seconds"] for x in ded),
-        "by_solver": {k: sum(x["by_solver"].get(k, 0) for x in ded) for k in ("z3", "cvc5")},
+        "by_solver": {k: sum(x["by_solver"].get(k, 0) for x in ded) for k in sorted({kk for x in ded for kk in x["by_solver"]} | {"z3", "cvc5"})},
     })
     for x in ded:
         for a in x["trusted_base"]:
